@@ -199,6 +199,24 @@ def run(rep):
                 if b.get("k") == "AssignOp" and b["op"] == "AddAssign" and lit(b["rhs"]) == ("i", 1) and q.var_id(b["lhs"]) is not None:
                     counters.add(q.var_id(b["lhs"]))
                     cnt_loops += 1
+        # ... or bound to `set.matches(x).iter().count()` (also through an extracted helper); `SetMatches::len()` would be the
+        # number of patterns, not of hits, and is not accepted
+        def _is_set_count(e):
+            e = unblock(e)
+            while e.get("k") == "Block" and e.get("expr") is not None:
+                e = unblock(e["expr"])
+            if not call_is(e, "Iterator::count"):
+                return False
+            x = peel(e["args"][0])
+            while call_is(x, "::iter") or call_is(x, "IntoIterator::into_iter"):
+                x = peel(x["args"][0])
+            return call_is(x, "RegexSet::matches")
+        for x in walk(f.body):
+            if x.get("k") == "Block":
+                for s in x["stmts"]:
+                    if s["k"] == "Let" and strip_ref(s["pat"]).get("k") == "Bind" and s.get("init") is not None and _is_set_count(s["init"]):
+                        counters.add(strip_ref(s["pat"])["id"])
+                        cnt_loops += 1
         aho_vars = {s["pat"]["id"] for x in walk(f.body) if x.get("k") == "Block" for s in x["stmts"] if s["k"] == "Let" and s["pat"].get("k") == "Bind" and s.get("init") and call_is(peel(s["init"]), "solver::slow_aho")}
         rep.check(cnt_loops == 7, "T-COUNT", "T-COUNT/%s/regexset-counter" % fname.split("::")[-1], f.sp, "the regex-set count is one per matching pattern (seven count loops)", str(cnt_loops))
         nc = 0
@@ -248,8 +266,29 @@ def run(rep):
     mo = F.fn("solver::match_of")
     if mo is not None:
         s = show(mo.body)
-        rep.check(s.startswith("{if (count Eq 0) {return match solver::solve_expression(expression, identifiers, document) {SolverResult::True => SolverResult::False, SolverResult::False => SolverResult::True, SolverResult::Missing => return SolverResult::Missing}}"),
-                  "T-COUNT", "T-COUNT/match_of/zero", mo.sp, "of(.., 0) over a single element: true iff it is false", s[:120])
+        mparams = [strip_ref(p["pat"]).get("id") for p in mo.thir["params"] if p.get("pat")]
+        okz = False
+        st0 = mo.body["stmts"][0] if mo.body.get("stmts") else None
+        first = peel(st0["e"]) if st0 and st0["k"] == "Expr" else (peel(mo.body["expr"]) if mo.body.get("expr") is not None and not mo.body.get("stmts") else None)
+        if first is not None and first.get("k") == "If":
+            c = peel(first["cond"])
+            if c.get("k") == "Binary" and c["op"] == "Eq" and q.var_id(c["lhs"]) == mparams[3] and lit(c["rhs"]) == ("i", 0):
+                leaves = q.result_leaves(first["then"])
+                ms = [x for x in walk(first["then"]) if x.get("k") == "Match" and call_is(peel(x["scrut"]), "solver::solve_expression")]
+                if len(ms) == 1 and q.var_id(peel(ms[0]["scrut"])["args"][0]) == mparams[0] and q.var_id(peel(ms[0]["scrut"])["args"][2]) == mparams[2]:
+                    table = {}
+                    for a in ms[0]["arms"]:
+                        v = variant_of(a["pat"])
+                        b = unblock(a["body"])
+                        val = b["value"] if b.get("k") == "Return" and b.get("value") is not None else b
+                        val = peel(val)
+                        if v and v[0] == "SolverResult" and val.get("k") == "Adt" and val["adt"].endswith("SolverResult"):
+                            table[v[1]] = val["variant"]
+                    # the match's value is what the branch returns
+                    rets = [x for x in walk(first["then"]) if x.get("k") == "Return"]
+                    flows = any(x.get("value") is not None and peel(x["value"]) is ms[0] for x in rets) or (first["then"].get("expr") is not None and unblock(first["then"]["expr"]) is ms[0] and False)
+                    okz = table == {"True": "False", "False": "True", "Missing": "Missing"} and flows
+        rep.check(okz, "T-COUNT", "T-COUNT/match_of/zero", mo.sp, "of(.., 0) over a single element: true iff it is false (missing stays missing)", s[:120])
     core.import_rules(rep, "c02", {"OPERAND"})
     core.import_rules(rep, "c06", {"TRI-ALL", "TRI-OF", "TRI-MATRIX"})
     core.import_rules(rep, "c07", {"LOCKSTEP", "AHO-OVERLAP", "T-OFFSET"})
